@@ -22,6 +22,7 @@ import (
 	"errors"
 	"sort"
 	"strings"
+	"time"
 
 	"deps.dev/util/resolve"
 	"deps.dev/util/resolve/dep"
@@ -90,14 +91,8 @@ func pyObserve(g *resolve.Graph, err error) sx.V {
 		return sx.L(sx.Sym("harderr"))
 	}
 	if g.Error != "" {
-		kind := "other"
-		switch {
-		case strings.HasPrefix(g.Error, "resolution impossible"):
-			kind = "impossible"
-		case strings.HasPrefix(g.Error, "resolution aborted"):
-			kind = "toodeep"
-		}
-		return sx.L(sx.Sym("gerr"), sx.Sym(kind))
+		// presence only: the text of a graph-level error is never compared
+		return sx.L(sx.Sym("gerr"))
 	}
 	canon := 1
 	if cerr := g.Canon(); cerr != nil {
@@ -117,10 +112,47 @@ func pyObserve(g *resolve.Graph, err error) sx.V {
 	return sx.L(sx.Sym("ok"), sx.L(nodes...), sx.L(edges...), sx.Int(nerrs), sx.Int(canon))
 }
 
+// A resolution of these small universes takes milliseconds. A resolver that no longer terminates
+// (the main loop polls the context every 100 rounds, backtrack does not) is abandoned in its
+// goroutine and reported as ("timeout"), which the model never answers. After a few of them the
+// allowance shrinks, and after more the process stops resolving at all, so that a run ends.
+var pyTimeouts int
+
 func pyResolve(c resolve.Client, root resolve.VersionKey) sx.V {
-	r := pypi.NewResolver(c)
-	g, err := r.Resolve(context.Background(), root)
-	return pyObserve(g, err)
+	if pyTimeouts >= 8 {
+		return sx.L(sx.Sym("timeout"))
+	}
+	limit := 10 * time.Second
+	if pyTimeouts >= 3 {
+		limit = 200 * time.Millisecond
+	}
+	ctx, cancel := context.WithTimeout(context.Background(), limit)
+	defer cancel()
+	done := make(chan sx.V, 1)
+	go func() {
+		defer func() {
+			if r := recover(); r != nil {
+				done <- sx.L(sx.Sym("panic"))
+			}
+		}()
+		r := pypi.NewResolver(c)
+		g, err := r.Resolve(ctx, root)
+		if err != nil && ctx.Err() != nil {
+			done <- sx.L(sx.Sym("timeout"))
+			return
+		}
+		done <- pyObserve(g, err)
+	}()
+	select {
+	case o := <-done:
+		if o.Kind == 2 && len(o.L) == 1 && o.L[0].B == "timeout" {
+			pyTimeouts++
+		}
+		return o
+	case <-time.After(limit + time.Second):
+		pyTimeouts++
+		return sx.L(sx.Sym("timeout"))
+	}
 }
 
 // ---- recording client
